@@ -4,7 +4,7 @@ import itertools
 ID = "C18"
 HARNESSES = [dict(name="upgrade", pkg="./pkg/upgrade/", test="TestVerifC18", timeout=900,
                   files=[("pkg/upgrade/zz_verif_c18_test.go", "harness/C18/zz_verif_c18_test.go")])]
-VARIANTS = ["repaired", "leaves_residue"]   # leaves_residue = /repo at ca3a3f9 (recorded finding); older behaviours match nothing = VIOLATION
+VARIANTS = ["repaired"]   # = /repo HEAD (all five repairs committed); any old behaviour matches nothing = VIOLATION
 MODEL_NEEDS_IMPL = False
 RULE = ("history cases: an installed tree of 5 artifact paths (absent / regular incl. empty, modes incl. setuid, setgid, "
         "sticky, 0 / symlink to a regular file outside the artifact dirs, to another artifact path, chains through "
@@ -427,23 +427,6 @@ def classify(case, impl, model):
                              % (k, fa.get("res"), a, b))
             return "G", "first difference at op #%d: impl=%r model=%r" % (k, a, b)
     return "G", "outputs differ in length: impl=%r model=%r" % (impl, model)
-
-
-def signature(case, impl, models):
-    """recorded finding: a ForceRetry over an interrupted upgrade with a tarball that does not install every path the kept
-    snapshot covers is admitted (the repaired model refuses it)"""
-    if case.startswith("name"):
-        return None
-    si, sr, ops = segs(impl), segs(models["repaired"]), ops_of(case)
-    for k, (a, b) in enumerate(zip(si, sr)):
-        if a == b:
-            continue
-        if 0 < k < len(ops) and ops[k].startswith("apply") and " force=1 " in ops[k] \
-                and fields(sr[k - 1]).get("j", "none").split(":")[0] not in ("none", "completed", "rolled_back", "started") \
-                and fields(b)["res"] == "err" and b.split(" ", 1)[1] == sr[k - 1].split(" ", 1)[1]:   # repaired refuses, nothing changes
-            return "forceretry-subset-leaves-residue"
-        return None
-    return None
 
 
 def shrink(case):
